@@ -115,12 +115,16 @@ def if_branch_valid(branch, root_hash, key, value):
     if value is not None:
         validate_is_bytes(key)
     # branch must not be empty
-    assert branch
+    # (explicit raises instead of assert statements, which `python -O` strips:
+    # an optimized interpreter must not validate every branch)
+    if not branch:
+        raise AssertionError("Branch must not be empty")
     for node in branch:
         validate_is_bin_node(node)
 
     db = {keccak(node): node for node in branch}
-    assert BinaryTrie(db=db, root_hash=root_hash).get(key) == value
+    if BinaryTrie(db=db, root_hash=root_hash).get(key) != value:
+        raise AssertionError("Branch does not prove the claimed value for the key")
     return True
 
 
